@@ -18,8 +18,30 @@ EVAL_ID = [0]
 def _memo_impl(self, dtype):
     """one implementation object per literal and per evaluation: a literal used twice in an expression is the SAME TT object"""
     if getattr(self, "_eval_id", None) != EVAL_ID[0] or getattr(self, "_dtype", None) != dtype:
-        self._obj, self._eval_id, self._dtype = ttgen.mk_tt(self.cores, dtype), EVAL_ID[0], dtype
+        ov = getattr(self, "_override", None)      # C15: cores supplied as (tracked) torch tensors
+        if ov is not None:
+            _, torchtt = _imp()
+            obj = torchtt.TT(list(ov))
+        else:
+            obj = ttgen.mk_tt(self.cores, dtype)
+        self._obj, self._eval_id, self._dtype = obj, EVAL_ID[0], dtype
     return self._obj
+
+def torch_full(cores):
+    """differentiable dense reconstruction from torch cores (independent of torchtt)"""
+    torch, _ = _imp()
+    t = cores[0][0]
+    for c in cores[1:]:
+        t = torch.tensordot(t, c, dims=([-1], [0]))
+    t = t[..., 0]
+    if cores[0].dim() == 4:
+        d = len(cores)
+        t = t.permute([2 * k for k in range(d)] + [2 * k + 1 for k in range(d)])
+    return t
+def _lit_dense(self, dtype):
+    ov = getattr(self, "_override", None)
+    if ov is not None: return torch_full(list(ov))
+    return ttgen.to_torch(ttgen.ref_full(self.cores), dtype)
 
 class Lit3:
     def __init__(self, cores): self.cores = [np.asarray(c) for c in cores]
@@ -29,7 +51,7 @@ class Lit3:
             cs.append("(%d%%nat,%d%%nat,%d%%nat,%s)" % (c.shape[0], c.shape[1], c.shape[2], car.lit(car.conv(c))))
         return "ELit3 [" + ";".join(cs) + "]"
     def impl(self, env, dtype): return _memo_impl(self, dtype)
-    def dense(self, env, dtype): return ttgen.to_torch(ttgen.ref_full(self.cores), dtype)
+    def dense(self, env, dtype): return _lit_dense(self, dtype)
     def desc(self): return {"tt": {"N": [c.shape[1] for c in self.cores], "R": [1] + [c.shape[2] for c in self.cores]}}
     def to_json(self): return {"lit3": [np.asarray(c).tolist() if not np.iscomplexobj(c) else [np.asarray(c).real.tolist(), np.asarray(c).imag.tolist()] for c in self.cores], "shapes": [list(c.shape) for c in self.cores]}
 
@@ -41,7 +63,7 @@ class Lit4:
             cs.append("(%d%%nat,%d%%nat,%d%%nat,%d%%nat,%s)" % (c.shape[0], c.shape[1], c.shape[2], c.shape[3], car.lit(car.conv(c))))
         return "ELit4 [" + ";".join(cs) + "]"
     def impl(self, env, dtype): return _memo_impl(self, dtype)
-    def dense(self, env, dtype): return ttgen.to_torch(ttgen.ref_full(self.cores), dtype)
+    def dense(self, env, dtype): return _lit_dense(self, dtype)
     def desc(self): return {"ttm": {"M": [c.shape[1] for c in self.cores], "N": [c.shape[2] for c in self.cores], "R": [1] + [c.shape[3] for c in self.cores]}}
     def to_json(self): return {"lit4": [np.asarray(c).tolist() if not np.iscomplexobj(c) else [np.asarray(c).real.tolist(), np.asarray(c).imag.tolist()] for c in self.cores], "shapes": [list(c.shape) for c in self.cores]}
 
@@ -137,6 +159,8 @@ def _norm2_impl(a, ia):
     """squared norm through the autograd (Gram) branch: exact on integer data"""
     torch, torchtt = _imp()
     x = a[0]
+    if any(c.requires_grad for c in x.cores):       # already tracked (C15): the Gram branch is taken, keep the tape
+        return x.norm(True)
     y = torchtt.TT([c.clone().requires_grad_(True) for c in x.cores])
     return y.norm(True).detach()
 def _sum_impl(a, ia):
